@@ -218,8 +218,11 @@ func replayFld(args map[string]string) error {
 		cases.Add(1)
 		var raw any
 		jsonv2.Unmarshal(line, &raw)
+		// a property of the type graph, reported with every mismatch: the same struct type is
+		// embedded twice at one depth and itself embeds structs (known finding K6 is about those)
+		diamond := sharedEmbeddedAtOneDepth(S)
 		bad := func(what string, got, want any) {
-			out.put(map[string]any{"prop": "C15", "family": "fld", "case": raw, "what": what, "got": got, "want": want})
+			out.put(map[string]any{"prop": "C15", "family": "fld", "case": raw, "what": what, "got": got, "want": want, "diamond": diamond})
 		}
 		for _, goEmbed := range []bool{false, true} {
 			badV := func(what string, got, want any) {
@@ -366,3 +369,39 @@ func replayFld(args map[string]string) error {
 }
 
 func init() { commands["replay-fld"] = replayFld }
+
+// sharedEmbeddedAtOneDepth: two embedded structs at the same depth have the same Go type (same
+// fields, tags and nesting: reflect.StructOf then yields one type) and that type embeds structs
+func sharedEmbeddedAtOneDepth(S []sfield) bool {
+	type at struct {
+		depth int
+		typ   reflect.Type
+	}
+	seen := map[at]int{}
+	found := false
+	var walk func(fs []sfield, depth int)
+	walk = func(fs []sfield, depth int) {
+		for _, f := range fs {
+			if !f.Embed {
+				continue
+			}
+			hasChild := false
+			for _, g := range f.Sub {
+				if g.Embed {
+					hasChild = true
+				}
+			}
+			func() {
+				defer func() { recover() }()
+				k := at{depth, buildStructE(f.Sub, false)}
+				seen[k]++
+				if seen[k] > 1 && hasChild {
+					found = true
+				}
+			}()
+			walk(f.Sub, depth+1)
+		}
+	}
+	walk(S, 1)
+	return found
+}
